@@ -13,6 +13,7 @@ import CxxModel.Theorems.NsForm
 import CxxModel.Theorems.UsingDecl
 import CxxModel.Theorems.UsingDeclForm
 import CxxModel.Theorems.VarDecl
+import CxxModel.Theorems.VarDecls
 import CxxModel.Theorems.AccessForm
 import CxxModel.Theorems.BlockEnd
 import CxxModel.Theorems.Verbose
@@ -504,5 +505,54 @@ theorem toplevel_field (env : Env) (hp : RulesProgress env.cfg = true) (F D : Na
     rw [htyc, hty, this]
     rfl
   rw [hti, hi7, hcar]
+
+/-- **`T d1 , d2 , … , dn ;` — a declaration statement with any number of declarators through
+    `parse()`'s loop**: outside a class, with an active visitor that never raises, the iteration
+    delivers exactly one `on_variable` per declarator, in order, each with its own name and the
+    type ITS chain denotes over `T`, all for the innermost open block; the first carries the doc
+    text found before the statement when there is one; the statement is consumed exactly and no
+    doc text is handed on. -/
+theorem toplevel_variables (env : Env) (hp : RulesProgress env.cfg = true) (hnf : env.faultAt = none) (F D : Nat) (w : World)
+    (first : Tok) (pairs : List (Tok × Tok)) (ds : List (Dtor × DType)) (last : Dtor × DType) (b1 b0 b' : Buf)
+    (blk : Block) (rest : List Block) (hstack : w.stack = blk :: rest) (hk : blk.hdr.kind ≠ .cls) (hmu : w.muted = false)
+    (htok : tokenEofOk env.cfg w.buf = .ok (some first, b1))
+    (hty : first.type = "NAME") (htv : identVal first.value = true)
+    (hall : ∀ p ∈ pairs, p.1.type = "DBL_COLON" ∧ p.2.type = "NAME" ∧ plainVal p.2.value = true)
+    (hy0 : Yields env.cfg b1 (pairs.flatMap (fun p => [p.1, p.2])) b0)
+    (hops : opsHeadOk (firstDtor ds last).ops = true) (hopsv : ∀ o ∈ (firstDtor ds last).ops, o.value ≠ "auto")
+    (hds : ∀ p ∈ ds, p.1.OK (.type (.mk (.name first.value none :: pairs.map (fun p => .name p.2.value none)) none false) false false) p.2 ∧
+      p.1.sep.type = "," ∧ p.1.ops.length + 1 ≤ F)
+    (hlast : last.1.OK (.type (.mk (.name first.value none :: pairs.map (fun p => .name p.2.value none)) none false) false false) last.2)
+    (hsep : last.1.sep.type = ";") (hlen : last.1.ops.length + 1 ≤ F)
+    (hy : Yields env.cfg b0 (ds.flatMap (fun p => p.1.toks) ++ last.1.toks) b')
+    (hF : pairs.length + 2 ≤ F) (hF2 : ds.length + 1 ≤ F) :
+    ∃ (d : Option String) (bD : Buf) (wF : World) (evs : List Event) (doxs : List (Option String)) (blkF : Block),
+      getDoxygen env.cfg env.mcRe w.buf = .ok (d, bD) ∧
+      interp env (mainBody F (core F (D + 1 + 1)) none) w = (wF, .ok (.inl none)) ∧
+      SigEq b' wF.buf ∧ wF.stack = blkF :: rest ∧ blkF.id = blk.id ∧ blkF.hdr = blk.hdr ∧
+      wF.events = w.events ++ evs ∧ doxs.length = ds.length + 1 ∧
+      evs.map (·.kind) = varKinds (ds ++ [last]) doxs ∧ (∀ e ∈ evs, e.stateId = blk.id ∧ e.parentId = rest.head?.map (·.id)) ∧
+      (∀ dd, d = some dd → doxs.head? = some (some dd)) ∧
+      wF.delivered = w.delivered + (ds.length + 1) ∧ wF.anon = w.anon ∧ wF.muted = false ∧ wF.nextId = w.nextId := by
+  obtain ⟨d, bD, wA, ct, hd, hsA, hbA, htyc, hv, hi⟩ := mainBody_item env hp F (core F (D + 1 + 1)) w first b1 htok
+  obtain ⟨wF, evs, doxs, blkF, hiF, hsig, hstF, hidF, hhdrF, hevF, hdl, hkinds, hids, hdox, hdlF, hanF, hmuF, hnxF⟩ :=
+    parseDeclarations_variables env hnf F D ct d pairs ds last { wA with mainTok := some ct } b0 b' blk rest
+      (by show wA.stack = _; rw [hsA.stack]; exact hstack) hk (by show wA.muted = _; rw [hsA.muted]; exact hmu)
+      (htyc.trans hty) (by rw [hv]; exact htv) hall (by show Yields env.cfg wA.buf _ _; rw [hbA]; exact hy0) hops hopsv
+      (by rw [hv]; exact hds) (by rw [hv]; exact hlast) hsep hlen hy hF hF2
+  refine ⟨d, bD, wF, evs, doxs, blkF, hd, ?_, hsig, hstF, hidF, hhdrF, by rw [hevF]; show wA.events ++ _ = _; rw [hsA.events], hdl,
+    hkinds, hids, hdox, by rw [hdlF]; show wA.delivered + _ = _; rw [hsA.delivered], by rw [hanF]; exact hsA.anon, hmuF,
+    by rw [hnxF]; exact hsA.nextId⟩
+  rw [hi]
+  have hti : topItem F (core F (D + 1 + 1)) ct d = parseDeclarations F (core F (D + 1 + 1)) ct d := by
+    unfold topItem
+    have : Gen.dispatchTable.lookup "NAME" = none := by rw [dispatch_table_eq]; decide
+    rw [htyc, hty, this]
+  have hcar : carry ct d = none := by
+    unfold carry
+    have : Gen.keepDoxygen.contains "NAME" = false := by rw [keep_doxygen_eq]; decide
+    rw [htyc, hty, this]
+    rfl
+  rw [hti, hiF, hcar]
 
 end Cxx
